@@ -163,8 +163,28 @@ def probe(obj, modname, depth=0):
     return dict(kind="value", value=canon(obj, modname))
 
 
+# names the import system / xreload itself put into a module; every other name — dunder or not — belongs to the source
+SYSTEM_DUNDERS = frozenset(["__builtins__", "__cached__", "__file__", "__loader__", "__name__", "__package__", "__spec__",
+                            "__loadtime__", "__path__"])
+
+
 def public(ns):
-    return sorted(n for n in ns if isinstance(n, str) and not n.startswith("__"))
+    return sorted(n for n in ns if isinstance(n, str) and n not in SYSTEM_DUNDERS)
+
+
+def lazy_view(mod):
+    """PEP 562: what module-level __getattr__ / __dir__ make visible"""
+    try:
+        v = repr(getattr(mod, "lazy_attr"))
+    except AttributeError:
+        v = "<AttributeError>"
+    except Exception as e:
+        v = "!" + type(e).__name__
+    try:
+        d = sorted(x for x in dir(mod) if x not in SYSTEM_DUNDERS)
+    except Exception as e:
+        d = "!" + type(e).__name__
+    return [v, d]
 
 
 def observe(ns, modname):
@@ -627,7 +647,13 @@ def _write(path, text, bump):
     with open(path, "w") as f:
         f.write(text)
     if bump is not None:
-        os.utime(path, (bump, bump))
+        os.utime(path, ns=(int(bump) * 1_000_000_000, int(bump) * 1_000_000_000))
+
+
+def _write_ns(path, text, ns):
+    with open(path, "w") as f:
+        f.write(text)
+    os.utime(path, ns=(ns, ns))
 
 
 def diff_obs(got, want, prefix=""):
@@ -691,6 +717,9 @@ class C16(Prop):
         "Pfb.C16.C16_rollback",
         "Pfb.C16.C16_rollback_syntax",
         "Pfb.C16.C16_registry_restored",
+        "Pfb.C16.reloadNeeded_iff",
+        "Pfb.C16.C16_second_edit_reloaded",
+        "Pfb.C16.C16_guard_skip_unchanged",
         "Pfb.C16.C16_names",
         "Pfb.C16.lp_dict_keys",
         "Pfb.C16.C16_function",
@@ -800,8 +829,10 @@ class C16(Prop):
         try:
             old_text = gen_c16.source(case["old"])
             new_text = gen_c16.source(case["new"], case.get("fail"))
-            first_text = gen_c16.source(case["pre"]) if case.get("pre") else old_text
-            _write(path, first_text, t0)
+            chain = [gen_c16.source(case[k]) for k in ("pre0", "pre") if case.get(k)] + [old_text]
+            if not case.get("pre"):
+                chain = [old_text]
+            _write(path, chain[0], t0)
             importlib.invalidate_caches()
             try:
                 m = importlib.import_module(name)
@@ -809,18 +840,30 @@ class C16(Prop):
                 sys.modules.pop(name, None)
                 obs["trivial"] = "old version does not import: " + _exc_name(e)
                 return obs
-            # make sure the mtime-based decision never skips: loadtime defaults to process start
-            now = max(t0, int(os.stat(path).st_mtime)) + 10
+            # The harness sets every edit's mtime explicitly.  _xreload_module skips a reload only when
+            # loadtime > mtime, loadtime = module.__loadtime__ (mtime of the file at the last successful reload) or,
+            # before the first reload, the process start time.
             import time as _time
-            now = max(now, int(_time.time()) + 10)
-            if case.get("pre"):
-                _write(path, old_text, now)
+            import pyflyby._livepatch as LP
+            last_ns = [None]
+
+            def stamp_ns(rel):
+                L = m.__dict__.get("__loadtime__", LP._PROCESS_START_TIME)
+                if rel == "equal" and "__loadtime__" in m.__dict__ and last_ns[0] is not None:
+                    return last_ns[0]
+                if rel == "older":
+                    return (int(L) - 50) * 1_000_000_000
+                return (max(int(L), int(_time.time())) + 10) * 1_000_000_000
+            for ci, text in enumerate(chain[1:], 1):
+                rel = case.get("pre_rel", "newer") if (ci == len(chain) - 1 and len(chain) > 2) else "newer"
+                ns = stamp_ns(rel)
+                _write_ns(path, text, ns)
+                last_ns[0] = ns
                 try:
                     pyflyby.xreload(m)
                 except BaseException as e:
                     obs["trivial"] = "preceding reload raised: " + _exc_name(e)
                     return obs
-                now += 10
             # ---- before the attempt ------------------------------------------------
             md = m.__dict__
             other = types.ModuleType("c16_other")
@@ -897,8 +940,23 @@ class C16(Prop):
                     kinfo["bases_refused"] = True
                 return r
             # ---- the attempt -------------------------------------------------------
-            _write(path, new_text, now)
+            ns = stamp_ns(case.get("rel", "newer"))
+            _write_ns(path, new_text, ns)
             kinfo["mtime"] = repr(os.stat(path).st_mtime)
+            # what the clean code does with these times (stated here, independent of the model):
+            #   loadtime > mtime                   -> return None, nothing read, nothing changed
+            #   else text == linecache's old text  -> return module, nothing changed
+            #   else                               -> reload
+            L = md.get("__loadtime__", LP._PROCESS_START_TIME)
+            M = os.stat(path).st_mtime
+            cached = linecache.cache.get(path)
+            cached_text = "".join(cached[2]) if cached is not None and len(cached) >= 3 else None
+            mtime_ns = os.stat(path).st_mtime_ns
+            obs["guard"] = dict(loadtime_ns=mtime_ns if L == M else int(L * 1_000_000_000), mtime_ns=mtime_ns,
+                                same=cached_text is not None and cached_text == new_text, rel=case.get("rel", "newer"),
+                                has_loadtime="__loadtime__" in md)
+            obs["expected_reload"] = (not (L > M)) and not obs["guard"]["same"]
+            obs["lazy_before"] = lazy_view(m)
             LP.livepatch = spy
             LP._LIVEPATCH_DISPATCH_TABLE[type] = cls_spy
             arg = m if case.get("via", "module") == "module" else (name if case["via"] == "name" else path)
@@ -912,6 +970,8 @@ class C16(Prop):
                 LP.livepatch = real_lp
                 LP._LIVEPATCH_DISPATCH_TABLE[type] = real_cls
             obs["raised"] = raised
+            obs["lazy_post"] = lazy_view(m)
+            obs["lazy_fresh"] = lazy_view(fresh) if fresh is not None else None
             n_mid = kinfo.get("n_mid", n_pre)
             kinfo["post"] = ab.redescribe(n_mid)
             kinfo["post_extra"] = ab.heap(n_mid)
@@ -1057,7 +1117,17 @@ class C16(Prop):
         brief = dict(old=case["old"], new=case["new"], fail=case.get("fail"))
         if case.get("pre"):
             brief["pre"] = case["pre"]
+        if case.get("pre0"):
+            brief["pre0"] = case["pre0"]
+        brief["guard"] = obs.get("guard")
+        if not obs.get("expected_reload", True):
+            # the clean code does not reload here (file older than the load time, or text unchanged): the property
+            # says nothing; what happens instead is compared with the model's guard by K
+            return []
         if obs.get("exec_fails") is not None:
+            if obs.get("lazy_before") != obs.get("lazy_post"):
+                fails.append(dict(what="rollback: module-level __getattr__/__dir__ view changed", got=obs.get("lazy_post"),
+                                  want=obs.get("lazy_before"), **brief))
             # atomicity: module, its objects and the registry exactly as before
             if not obs["sysmod_same"]:
                 fails.append(dict(what="rollback: sys.modules entry is not the old module", **brief))
@@ -1082,6 +1152,9 @@ class C16(Prop):
                          msg=obs.get("raised_msg"), **brief)]
         if not obs["sysmod_same"]:
             fails.append(dict(what="sys.modules entry is not the old module after a successful reload", **brief))
+        if obs.get("lazy_post") != obs.get("lazy_fresh"):
+            fails.append(dict(what="module-level __getattr__/__dir__ view differs from a fresh import",
+                              got=obs.get("lazy_post"), want=obs.get("lazy_fresh"), **brief))
         if obs.get("foreign_modified"):
             fails.append(dict(what="an object that belongs to another module was modified by the reload",
                               names=obs["foreign_modified"], **brief))
@@ -1151,8 +1224,6 @@ class C16(Prop):
             return "unsupported: " + ",".join(k["unsupported"])
         if "__bases__" in (obs.get("raised_msg") or "") or obs.get("layout_changed") or k.get("bases_refused"):
             return "CPython layout check on __bases__ (not modelled)"
-        if obs.get("exec_fails") is None and "objs" not in k:
-            return "livepatch was not reached"
         return None
 
     def model_requests(self, case, obs):
@@ -1162,7 +1233,8 @@ class C16(Prop):
         req = dict(op="xreload", heap=k["pre"], sysmods=k["sysmods"], objs=k.get("objs", []),
                    name=k["sysmods"][0][0] if k["sysmods"] else "?", module=k["module"],
                    compileOk=obs.get("exec_fails") != "SyntaxError",
-                   mtime=dict(k="atom", ty="builtins.float", val=k["mtime"]), fuel=4000, fixes=detect_fixes())
+                   mtime=dict(k="atom", ty="builtins.float", val=k["mtime"]), fuel=4000, fixes=detect_fixes(),
+                   loadtime=obs["guard"]["loadtime_ns"], mtimeNs=obs["guard"]["mtime_ns"], same=obs["guard"]["same"])
         if obs.get("exec_fails") is not None and obs["exec_fails"] != "SyntaxError":
             req["fail"] = (case.get("fail") or {}).get("at", 0)
             req["objs"] = []
@@ -1180,8 +1252,20 @@ class C16(Prop):
         r = resps[0]
         k = obs["k"]
         res = r["result"]
+        # the mtime / unchanged-text guard
+        reached = "objs" in k or obs.get("raised") is not None
+        if r.get("skipped"):
+            if reached:
+                return "model guard says no reload (%s), impl reloaded; guard=%r" % (r["skipped"], obs.get("guard"))
+            if obs.get("raised") is not None:
+                return "model guard says no reload, impl raised %s" % obs["raised"]
+        elif obs.get("exec_fails") is None and "objs" not in k and obs.get("raised") is None:
+            return ("model guard says reload (loadtime <= mtime and text changed), impl did not reach livepatch; guard=%r"
+                    % (obs.get("guard"),))
         # outcome
-        if obs.get("exec_fails") is not None:
+        if r.get("skipped"):
+            pass
+        elif obs.get("exec_fails") is not None:
             want = "SyntaxError" if obs["exec_fails"] == "SyntaxError" else "execFailed"
             got = res.get("err")
             got = "execFailed" if isinstance(got, dict) else got
@@ -1263,7 +1347,7 @@ class C16(Prop):
     def nontrivial_key(self, case, obs):
         if obs.get("trivial"):
             return None
-        return json.dumps([case.get("pre"), case["old"], case["new"], case.get("fail")])
+        return json.dumps([case.get("pre0"), case.get("pre"), case["old"], case["new"], case.get("fail"), case.get("rel")])
 
     def sample_repr(self, case, obs):
         return dict(old=case["old"][:4], new=case["new"][:4], fail=case.get("fail"), raised=obs.get("raised"),
